@@ -25,7 +25,7 @@ Proof. intros HI. cbn. repeat split. apply from_disk_length, (I_disk_len _ HI). 
 Theorem reload_ended_preserved (s : ost) id : Inv s -> In id (end_order s) ->
   nth_error (trials (fst (do_reload hook_reload s))) id = nth_error (trials s) id.
 Proof.
-  intros HI He. pose proof (I_d_fin _ HI _ He) as Hd. cbn.
+  intros HI He. pose proof (I_d_fin _ HI _ (eo_finalat _ _ HI He)) as Hd. cbn.
   destruct (nth_error (trials s) id) as [t|] eqn:Et.
   - simpl in Hd. rewrite (from_disk_nth _ _ _ _ _ Et (eq_sym Hd)). destruct t; reflexivity.
   - assert (Hlen : length (from_disk (trials s) (disk s)) = length (trials s)) by (apply from_disk_length, (I_disk_len _ HI)).
